@@ -32,6 +32,7 @@ fn dispatch(op: &str, args: &[&str]) -> String {
         "lic" => connect::op_lic(args),
         "neg" => negotiate::op_neg(args),
         "write" => framing::op_write(args),
+        "writes" => framing::op_writes(args),
         "session" => session::op_session(args),
         "md4" | "md5" | "hmac" | "rc4k" | "signkey" | "sealkey" | "mac" => ntlm::op_prim(op, args),
         "sess" => ntlm::op_sess(args),
